@@ -423,6 +423,11 @@ def oracle(ctx: Ctx, case: Case, obs, tag):
         Et = Exact(St, rows)
         dv = dict(Et.deb_values())
         cv = {n: v for n, v, c in Et.sup_values() if c}
+        if dn not in dv:
+            out.append(("pick.debt-not-held", f"a liquidation step was attempted on the debt token {dn}, which the position does not owe at that moment "
+                        f"(debts: { {n: float(v) for n, v in dv.items()} }) - a debt repaid earlier in the bar is still in the market's views"))
+            done.append(dn)
+            continue
         if any(n not in done and v < dv[dn] * (1 - TOL) for n, v in dv.items()):
             out.append(("pick.debt-not-smallest", f"liquidated debt {dn} (value {float(dv[dn])}) although a smaller unvisited debt exists: { {n: float(v) for n, v in dv.items()} }"))
         if cn not in cv or any(v > cv[cn] * (1 + TOL) for v in cv.values()):
